@@ -175,6 +175,83 @@ inductive Op
   | read100 (w : Bytes) | keep100 | resp (w : Bytes) | bread (w : Bytes) (cap : Nat) | stopb (b : Bool)
   | boundary | mode | mustClose | reason | statusQ
 
+def readerEnded : BodyReader → Bool
+  | .noBody => true | .len n => n == 0 | .chunked d => d == .ended | .close => false
+
+def toFault : Err → Fault
+  | .chunkExpectedCrLf => .api .chunkExpectedCrLf | .chunkLenNotAscii => .api .chunkLenNotAscii
+  | .chunkLenNotANumber => .api .chunkLenNotANumber | .panic => .panic "chunk.rs"
+
+/-! ## Call-level operations (call.rs); `Flow` delegates to these, the single-call API exposes them -/
+
+/-- `HeaderValue::try_from(&[u8])`: visible bytes, tab and obs-text; no control bytes, no DEL -/
+def validHeaderValue (v : Bytes) : Bool := v.all (fun b => (b ≥ 32 && b != 127) || b == 9)
+
+/-- call.rs `Call<WithoutBody>::write` -/
+def CallSt.writeNoBody (c : CallSt) (cap : Nat) : CallSt × Except Fault Bytes :=
+  match c.analyzeRequest with
+  | (c1, .error e) => (c1, .error e)
+  | (c1, .ok ()) =>
+    match writePrelude c1 { out := [], cap := cap } with
+    | (c2, w2, .ok ()) => (c2, .ok w2.out)
+    | (c2, _, .error e) => (c2, .error e)
+
+/-- the body part of `Call<WithBody>::write` (phase is SendBody): the two guards, then the writer -/
+def CallSt.writeBodyPhase (c : CallSt) (input : Bytes) (cap : Nat) : CallSt × Except Fault (Nat × Bytes) :=
+  if !input.isEmpty && c.writer.ended then (c, .error (.api .bodyContentAfterFinish))
+  else if (match c.writer.leftToSend with | some left => decide (input.length > left) | none => false) then
+    (c, .error (.api .bodyLargerThanContentLength))
+  else
+    match c.writer.write input { out := [], cap := cap } with
+    | (bw, w2, .ok n) => ({ c with writer := bw }, .ok (n, w2.out))
+    | (bw, _, .error e) => ({ c with writer := bw }, .error e)
+
+/-- call.rs `Call<WithBody>::write` -/
+def CallSt.writeBody (c : CallSt) (input : Bytes) (cap : Nat) : CallSt × Except Fault (Nat × Bytes) :=
+  match c.analyzeRequest with
+  | (c1, .error e) => (c1, .error e)
+  | (c1, .ok ()) =>
+    if c1.phase.isPrelude then
+      match writePrelude c1 { out := [], cap := cap } with
+      | (c2, w2, .ok ()) => (c2, .ok (0, w2.out))
+      | (c2, _, .error e) => (c2, .error e)
+    else if c1.phase == .sendBody then c1.writeBodyPhase input cap
+    else (c1, .ok (0, []))
+
+/-- call.rs `consume_direct_write` -/
+def CallSt.consumeDirect (c : CallSt) (n : Nat) : CallSt × Except Fault Unit :=
+  match c.writer.mode with
+  | .sized left =>
+    if n > left then (c, .error (.api .bodyLargerThanContentLength))
+    else ({ c with writer := { mode := .sized (left - n), ended := c.writer.ended || left - n == 0 } }, .ok ())
+  | _ => (c, .error (.api .bodyIsChunked))
+
+/-- body.rs `BodyReader::read` after the `is_ended` short-circuit of `Call<RecvBody>::read` -/
+def CallSt.read (c : CallSt) (w : Bytes) (cap : Nat) : CallSt × Except Fault (Nat × Bytes) :=
+  match c.reader with
+  | none => (c, .error (.panic "call.rs reader unwrap"))
+  | some rd =>
+    if readerEnded rd then (c, .ok (0, [])) else
+    match rd with
+    | .noBody => (c, .ok (0, []))
+    | .len left => ({ c with reader := some (.len (left - min (min w.length cap) left)) },
+                    .ok (min (min w.length cap) left, w.take (min (min w.length cap) left)))
+    | .close => (c, .ok (min w.length cap, w.take (min w.length cap)))
+    | .chunked d =>
+      match readChunkedS (w.length + 2) d w cap c.stopBoundary with
+      | (d', .ok (i, o)) => ({ c with reader := some (.chunked d') }, .ok (i, o))
+      | (d', .error e) => ({ c with reader := some (.chunked d') }, .error (toFault e))
+
+def needResponseBody (r : Option BodyReader) : Bool :=
+  match r with | some .noBody => false | some (.len 0) => false | _ => true
+
+def modeText (r : Option BodyReader) : String :=
+  match r with
+  | some .noBody => "NoBody" | some (.len n) => s!"LengthDelimited({n})" | some (.chunked _) => "Chunked"
+  | some .close => "CloseDelimited" | none => "Chunked"
+
+/-! ## Flow (flow.rs): one step function per typestate -/
+
 def Flow.canProceed (f : Flow) : Except Fault Bool :=
   match f.st, f.holder with
   | .sendRequest, .withoutBody => .ok (!f.call.phase.isPrelude)
@@ -191,211 +268,197 @@ def Flow.canProceed (f : Flow) : Except Fault Bool :=
   | .recvBody, _ => .error (.panic "holder.rs as_recv_body unreachable")
   | _, _ => .ok true
 
-def readerEnded : BodyReader → Bool
-  | .noBody => true | .len n => n == 0 | .chunked d => d == .ended | .close => false
+def notOffered (f : Flow) : Flow × Res := (f, .str "not-offered")
 
-def toFault : Err → Fault
-  | .chunkExpectedCrLf => .api .chunkExpectedCrLf | .chunkLenNotAscii => .api .chunkLenNotAscii
-  | .chunkLenNotANumber => .api .chunkLenNotANumber | .panic => .panic "chunk.rs"
+def resOfUnit : Except Fault Unit → Res | .ok () => .unit | .error e => .fault e
+def resOfBool : Except Fault Bool → Res | .ok b => .bool b | .error e => .fault e
 
-/-- one public call; returns the new flow and the observable result -/
-def Flow.step (hack : Bool) (f : Flow) (op : Op) : Flow × Res :=
-  match f.st, op with
-  -- ---------------------------------------------------------------- Prepare
-  | .prepare, .header h =>
-    let (req', r) := f.call.req.setHeader h
-    ({ f with call := { f.call with req := req' } }, match r with | .ok () => .unit | .error e => .fault e)
-  | .prepare, .despite =>
+def stepPrepare (f : Flow) (op : Op) : Flow × Res :=
+  match op with
+  | .header h =>
+    if !validHeaderValue h.value then (f, .fault (.api .badHeader)) else
+    match f.call.req.setHeader h with
+    | (req', r) => ({ f with call := { f.call with req := req' } }, resOfUnit r)
+  | .despite =>
     if f.holder == .withoutBody then
       if f.call.analyzed then (f, .fault (.panic "call.rs into_send_body assert"))
       else ({ f with shouldSendBody := true, holder := .withBody,
                      call := { f.call with skipCheck := true, writer := BodyWriter.newChunked } }, .unit)
     else ({ f with shouldSendBody := true }, .unit)
-  | .prepare, .proceed => ({ f with st := .sendRequest }, .state .sendRequest)
-  -- ---------------------------------------------------------------- SendRequest
-  | .sendRequest, .write cap =>
+  | .proceed => ({ f with st := .sendRequest }, .state .sendRequest)
+  | _ => notOffered f
+
+/-- the edge out of SendRequest / Await100 into SendBody: `analyze_request()?` on the new flow -/
+def enterSendBody (f : Flow) : Flow × Res :=
+  match f.call.analyzeRequest with
+  | (c1, .error e) => ({ f with call := c1, st := .sendBody }, .fault e)
+  | (c1, .ok ()) => ({ f with call := c1, st := .sendBody }, .state .sendBody)
+
+def enterRecvResponse (f : Flow) : Flow × Res :=
+  ({ f with st := .recvResponse, holder := .recvResponse, call := { f.call with phase := .recvResponse } }, .state .recvResponse)
+
+def stepSendRequest (f : Flow) (op : Op) : Flow × Res :=
+  match op with
+  | .write cap =>
     match f.holder with
-    | .withoutBody | .withBody =>
-      if f.holder == .withBody && !f.call.phase.isPrelude then (f, .bytes 0 []) else   -- repair D12
-      let (c1, r1) := f.call.analyzeRequest
-      match r1 with
-      | .error e => ({ f with call := c1 }, .fault e)
-      | .ok () =>
-        let w : W := { out := [], cap := cap }
-        if c1.phase.isPrelude then
-          let (c2, w2, r2) := writePrelude c1 w
-          ({ f with call := c2 }, match r2 with | .ok () => .bytes 0 w2.out | .error e => .fault e)
-        else
-          -- WithoutBody: try_write_prelude with nothing left: Ok(0)
-          ({ f with call := c1 }, .bytes 0 [])
+    | .withoutBody =>
+      (match f.call.writeNoBody cap with
+       | (c, .ok out) => ({ f with call := c }, .bytes 0 out)
+       | (c, .error e) => ({ f with call := c }, .fault e))
+    | .withBody =>
+      if !f.call.phase.isPrelude then (f, .bytes 0 []) else   -- repair D12
+      (match f.call.writeBody [] cap with
+       | (c, .ok (_, out)) => ({ f with call := c }, .bytes 0 out)
+       | (c, .error e) => ({ f with call := c }, .fault e))
     | _ => (f, .fault (.panic "flow.rs SendRequest::write unreachable"))
-  | .sendRequest, .canProceed => (f, match f.canProceed with | .ok b => .bool b | .error e => .fault e)
-  | .sendRequest, .proceed =>
+  | .canProceed => (f, resOfBool f.canProceed)
+  | .proceed =>
     match f.canProceed with
     | .error e => (f, .fault e)
     | .ok false => (f, .none)
     | .ok true =>
       if f.shouldSendBody then
         if f.await100 then ({ f with st := .await100 }, .state .await100)
-        else
-          let (c1, r1) := f.call.analyzeRequest
-          match r1 with
-          | .error e => ({ f with call := c1, st := .sendBody }, .fault e)
-          | .ok () => ({ f with call := c1, st := .sendBody }, .state .sendBody)
+        else enterSendBody f
       else
         match f.holder with
         | .withoutBody =>
           if !f.call.writer.ended then (f, .fault (.panic "flow.rs into_receive unwrap"))
-          else ({ f with st := .recvResponse, holder := .recvResponse, call := { f.call with phase := .recvResponse } },
-                .state .recvResponse)
+          else enterRecvResponse f
         | _ => (f, .fault (.panic "flow.rs SendRequest::proceed unreachable"))
-  -- ---------------------------------------------------------------- Await100
-  | .await100, .read100 w =>
+  | _ => notOffered f
+
+/-- the server refused the body: remember why the connection must close -/
+def refuse100 (f : Flow) : Flow × Res :=
+  match pushReason f.closeReasons .not100 with
+  | (l, .error e) => ({ f with closeReasons := l }, .fault e)
+  | (l, .ok ()) => ({ f with closeReasons := l, shouldSendBody := false }, .count 0)
+
+def stepAwait100 (f : Flow) (op : Op) : Flow × Res :=
+  match op with
+  | .read100 w =>
     match tryParseResponse 0 w with
     | .ok none => (f, .count 0)
     | .ok (some (used, r)) =>
-      let f1 := { f with await100 := false }
       if r.status == 100 then
-        if !f1.shouldSendBody then (f1, .fault (.panic "flow.rs assert should_send_body")) else (f1, .count used)
-      else
-        let (l, pr) := pushReason f1.closeReasons .not100
-        match pr with
-        | .error e => ({ f1 with closeReasons := l }, .fault e)
-        | .ok () => ({ f1 with closeReasons := l, shouldSendBody := false }, .count 0)
+        if !f.shouldSendBody then ({ f with await100 := false }, .fault (.panic "flow.rs assert should_send_body"))
+        else ({ f with await100 := false }, .count used)
+      else refuse100 { f with await100 := false }
     | .error e =>
-      let f1 := { f with await100 := false }
-      if e == .api .httpParseTooManyHeaders then
-        let (l, pr) := pushReason f1.closeReasons .not100
-        match pr with
-        | .error e => ({ f1 with closeReasons := l }, .fault e)
-        | .ok () => ({ f1 with closeReasons := l, shouldSendBody := false }, .count 0)
-      else (f1, .fault e)
-  | .await100, .keep100 => (f, .bool f.await100)
-  | .await100, .proceed =>
-    if f.shouldSendBody then
-      let (c1, r1) := f.call.analyzeRequest
-      match r1 with
-      | .error e => ({ f with call := c1, st := .sendBody }, .fault e)
-      | .ok () => ({ f with call := c1, st := .sendBody }, .state .sendBody)
+      if e == .api .httpParseTooManyHeaders then refuse100 { f with await100 := false }
+      else ({ f with await100 := false }, .fault e)
+  | .keep100 => (f, .bool f.await100)
+  | .proceed =>
+    if f.shouldSendBody then enterSendBody f
     else
       match f.holder with
-      | .withBody => ({ f with st := .recvResponse, holder := .recvResponse, call := { f.call with phase := .recvResponse } },
-                      .state .recvResponse)   -- repair D3
+      | .withBody => enterRecvResponse f   -- repair D3
       | _ => (f, .fault (.panic "flow.rs Await100::proceed unreachable"))
-  -- ---------------------------------------------------------------- SendBody
-  | .sendBody, .bwrite input cap =>
-    if f.holder != .withBody then (f, .fault (.panic "holder.rs as_with_body_mut unreachable")) else
-    let (c1, r1) := f.call.analyzeRequest
-    match r1 with
-    | .error e => ({ f with call := c1 }, .fault e)
-    | .ok () =>
-      let w : W := { out := [], cap := cap }
-      if c1.phase.isPrelude then
-        let (c2, w2, r2) := writePrelude c1 w
-        ({ f with call := c2 }, match r2 with | .ok () => .bytes 0 w2.out | .error e => .fault e)
-      else if c1.phase == .sendBody then
-        if !input.isEmpty && c1.writer.ended then ({ f with call := c1 }, .fault (.api .bodyContentAfterFinish))
-        else if (match c1.writer.leftToSend with | some left => decide (input.length > left) | none => false) then
-          ({ f with call := c1 }, .fault (.api .bodyLargerThanContentLength))
-        else
-          let (bw, w2, r) := c1.writer.write input w
-          ({ f with call := { c1 with writer := bw } }, match r with | .ok n => .bytes n w2.out | .error e => .fault e)
-      else ({ f with call := c1 }, .bytes 0 [])
-  | .sendBody, .direct n =>
-    if f.holder != .withBody then (f, .fault (.panic "holder.rs as_with_body_mut unreachable")) else
-    match f.call.writer.mode with
-    | .sized left =>
-      if n > left then (f, .fault (.api .bodyLargerThanContentLength))
-      else
-        let left' := left - n
-        ({ f with call := { f.call with writer := { mode := .sized left', ended := f.call.writer.ended || left' == 0 } } }, .unit)
-    | _ => (f, .fault (.api .bodyIsChunked))
-  | .sendBody, .maxin n =>
-    if f.holder != .withBody then (f, .fault (.panic "holder.rs as_with_body_mut unreachable")) else
-    (f, .count (if !f.call.writer.isChunked then n else calcMaxInput n))
-  | .sendBody, .isChunked =>
-    if f.holder != .withBody then (f, .fault (.panic "holder.rs as_with_body_mut unreachable")) else
-    (f, .bool f.call.writer.isChunked)
-  | .sendBody, .canProceed => (f, match f.canProceed with | .ok b => .bool b | .error e => .fault e)
-  | .sendBody, .proceed =>
-    match f.canProceed with
-    | .error e => (f, .fault e)
-    | .ok false => (f, .none)
-    | .ok true => ({ f with st := .recvResponse, holder := .recvResponse, call := { f.call with phase := .recvResponse } },
-                   .state .recvResponse)
-  -- ---------------------------------------------------------------- RecvResponse
-  | .recvResponse, .resp w =>
+  | _ => notOffered f
+
+def stepSendBody (f : Flow) (op : Op) : Flow × Res :=
+  if f.holder != .withBody then
+    (match op with
+     | .bwrite _ _ | .direct _ | .maxin _ | .isChunked | .canProceed | .proceed => (f, .fault (.panic "holder.rs as_with_body unreachable"))
+     | _ => notOffered f)
+  else
+  match op with
+  | .bwrite input cap =>
+    (match f.call.writeBody input cap with
+     | (c, .ok (n, out)) => ({ f with call := c }, .bytes n out)
+     | (c, .error e) => ({ f with call := c }, .fault e))
+  | .direct n =>
+    (match f.call.consumeDirect n with
+     | (c, r) => ({ f with call := c }, resOfUnit r))
+  | .maxin n => (f, .count (if !f.call.writer.isChunked then n else calcMaxInput n))
+  | .isChunked => (f, .bool f.call.writer.isChunked)
+  | .canProceed => (f, resOfBool f.canProceed)
+  | .proceed =>
+    (match f.canProceed with
+     | .error e => (f, .fault e)
+     | .ok false => (f, .none)
+     | .ok true => enterRecvResponse f)
+  | _ => notOffered f
+
+def lastLocation (fields : List Hdr) : Option Bytes :=
+  ((fields.filter (·.name == "location")).getLast?).map (·.value)
+
+def stepRecvResponse (hack : Bool) (f : Flow) (op : Op) : Flow × Res :=
+  match op with
+  | .resp w =>
     if f.holder != .recvResponse then (f, .fault (.panic "holder.rs as_recv_response_mut unreachable")) else
-    let (c1, r1) := callTryResponse hack f.call w
-    match r1 with
-    | .error e => ({ f with call := c1 }, .fault e)
-    | .ok none => ({ f with call := c1 }, .resp 0 none)
-    | .ok (some (used, r)) =>
+    match callTryResponse hack f.call w with
+    | (c1, .error e) => ({ f with call := c1 }, .fault e)
+    | (c1, .ok none) => ({ f with call := c1 }, .resp 0 none)
+    | (c1, .ok (some (used, r))) =>
       if r.status == 100 && f.await100 then ({ f with call := c1, await100 := false }, .resp used none)
       else
-        let loc := ((r.fields.filter (·.name == "location")).getLast?).map (·.value)
-        let f1 := { f with call := c1, status := some r.status, location := loc }
         if hasHdr r.fields "connection" "close" then
-          let (l, pr) := pushReason f1.closeReasons .serverClose
-          match pr with
-          | .error e => ({ f1 with closeReasons := l }, .fault e)
-          | .ok () => ({ f1 with closeReasons := l }, .resp used (some r))
-        else (f1, .resp used (some r))
-  | .recvResponse, .canProceed => (f, match f.canProceed with | .ok b => .bool b | .error e => .fault e)
-  | .recvResponse, .proceed =>
+          match pushReason f.closeReasons .serverClose with
+          | (l, .error e) => ({ f with call := c1, status := some r.status, location := lastLocation r.fields, closeReasons := l }, .fault e)
+          | (l, .ok ()) => ({ f with call := c1, status := some r.status, location := lastLocation r.fields, closeReasons := l }, .resp used (some r))
+        else ({ f with call := c1, status := some r.status, location := lastLocation r.fields }, .resp used (some r))
+  | .canProceed => (f, resOfBool f.canProceed)
+  | .proceed =>
     match f.canProceed with
     | .error e => (f, .fault e)
     | .ok false => (f, .none)
     | .ok true =>
-      let needBody := match f.call.reader with | some .noBody => false | some (.len 0) => false | _ => true
-      let c1 := { f.call with phase := .recvBody }
-      if needBody then
-        let isClose := f.call.reader == some .close
-        let (l, pr) := if isClose then pushReason f.closeReasons .closeDelimited else (f.closeReasons, .ok ())
-        match pr with
-        | .error e => ({ f with closeReasons := l }, .fault e)
-        | .ok () => ({ f with st := .recvBody, holder := .recvBody, call := c1, closeReasons := l }, .state .recvBody)
+      if needResponseBody f.call.reader then
+        if f.call.reader == some .close then
+          match pushReason f.closeReasons .closeDelimited with
+          | (l, .error e) => ({ f with closeReasons := l }, .fault e)
+          | (l, .ok ()) => ({ f with st := .recvBody, holder := .recvBody, call := { f.call with phase := .recvBody }, closeReasons := l }, .state .recvBody)
+        else ({ f with st := .recvBody, holder := .recvBody, call := { f.call with phase := .recvBody } }, .state .recvBody)
       else
-        let nxt := if isRedirectStatus f.status then FState.redirect else FState.cleanup
-        ({ f with st := nxt, holder := .recvBody, call := c1 }, .state nxt)
-  -- ---------------------------------------------------------------- RecvBody
-  | .recvBody, .bread w cap =>
+        ({ f with st := if isRedirectStatus f.status then .redirect else .cleanup, holder := .recvBody,
+                  call := { f.call with phase := .recvBody } },
+         .state (if isRedirectStatus f.status then .redirect else .cleanup))
+  | _ => notOffered f
+
+def stepRecvBody (f : Flow) (op : Op) : Flow × Res :=
+  match op with
+  | .bread w cap =>
     if f.holder != .recvBody then (f, .fault (.panic "holder.rs as_recv_body_mut unreachable")) else
-    match f.call.reader with
-    | none => (f, .fault (.panic "call.rs reader unwrap"))
-    | some rd =>
-      if readerEnded rd then (f, .bytes 0 []) else
-      match rd with
-      | .noBody => (f, .bytes 0 [])
-      | .len left =>
-        let n := min (min w.length cap) left
-        ({ f with call := { f.call with reader := some (.len (left - n)) } }, .bytes n (w.take n))
-      | .close =>
-        let n := min w.length cap
-        (f, .bytes n (w.take n))
-      | .chunked d =>
-        match readChunkedS (w.length + 2) d w cap f.call.stopBoundary with
-        | (d', .ok (i, o)) => ({ f with call := { f.call with reader := some (.chunked d') } }, .bytes i o)
-        | (d', .error e) => ({ f with call := { f.call with reader := some (.chunked d') } }, .fault (toFault e))
-  | .recvBody, .stopb b => ({ f with call := { f.call with stopBoundary := b } }, .unit)
-  | .recvBody, .boundary => (f, .bool (match f.call.reader with | some (.chunked d) => d == .size | _ => false))
-  | .recvBody, .mode =>
-    (f, .str (match f.call.reader with
-      | some .noBody => "NoBody" | some (.len n) => s!"LengthDelimited({n})" | some (.chunked _) => "Chunked"
-      | some .close => "CloseDelimited" | none => "Chunked"))
-  | .recvBody, .canProceed => (f, match f.canProceed with | .ok b => .bool b | .error e => .fault e)
-  | .recvBody, .proceed =>
-    match f.canProceed with
-    | .error e => (f, .fault e)
-    | .ok false => (f, .none)
-    | .ok true =>
-      let nxt := if isRedirectStatus f.status then FState.redirect else FState.cleanup
-      ({ f with st := nxt }, .state nxt)
-  -- ---------------------------------------------------------------- Redirect / Cleanup
-  | .redirect, .statusQ => (f, match f.status with | some s => .count s | none => .fault (.panic "flow.rs status unwrap"))
-  | .redirect, .mustClose => (f, .bool (!f.closeReasons.isEmpty))
-  | .redirect, .reason => (f, .str ((f.closeReasons.head?.map (·.explain)).getD "-"))
-  | .redirect, .proceed => ({ f with st := .cleanup }, .state .cleanup)
-  | .cleanup, .mustClose => (f, .bool (!f.closeReasons.isEmpty))
-  | .cleanup, .reason => (f, .str ((f.closeReasons.head?.map (·.explain)).getD "-"))
-  | _, _ => (f, .str "not-offered")
+    (match f.call.read w cap with
+     | (c, .ok (i, o)) => ({ f with call := c }, .bytes i o)
+     | (c, .error e) => ({ f with call := c }, .fault e))
+  | .stopb b => ({ f with call := { f.call with stopBoundary := b } }, .unit)
+  | .boundary => (f, .bool (match f.call.reader with | some (.chunked d) => d == .size | _ => false))
+  | .mode => (f, .str (modeText f.call.reader))
+  | .canProceed => (f, resOfBool f.canProceed)
+  | .proceed =>
+    (match f.canProceed with
+     | .error e => (f, .fault e)
+     | .ok false => (f, .none)
+     | .ok true => ({ f with st := if isRedirectStatus f.status then .redirect else .cleanup },
+                    .state (if isRedirectStatus f.status then .redirect else .cleanup)))
+  | _ => notOffered f
+
+def closeText (f : Flow) : String := (f.closeReasons.head?.map (·.explain)).getD "-"
+
+def stepRedirect (f : Flow) (op : Op) : Flow × Res :=
+  match op with
+  | .statusQ => (f, match f.status with | some s => .count s | none => .fault (.panic "flow.rs status unwrap"))
+  | .mustClose => (f, .bool (!f.closeReasons.isEmpty))
+  | .reason => (f, .str (closeText f))
+  | .proceed => ({ f with st := .cleanup }, .state .cleanup)
+  | _ => notOffered f
+
+def stepCleanup (f : Flow) (op : Op) : Flow × Res :=
+  match op with
+  | .mustClose => (f, .bool (!f.closeReasons.isEmpty))
+  | .reason => (f, .str (closeText f))
+  | _ => notOffered f
+
+/-- one public call; returns the new flow and the observable result -/
+def Flow.step (hack : Bool) (f : Flow) (op : Op) : Flow × Res :=
+  match f.st with
+  | .prepare => stepPrepare f op
+  | .sendRequest => stepSendRequest f op
+  | .await100 => stepAwait100 f op
+  | .sendBody => stepSendBody f op
+  | .recvResponse => stepRecvResponse hack f op
+  | .recvBody => stepRecvBody f op
+  | .redirect => stepRedirect f op
+  | .cleanup => stepCleanup f op
